@@ -45,8 +45,8 @@ type request struct {
 }
 
 type contSpec struct {
-	Kind  string `json:"kind"` // pstruct | vstruct | map | slice | parray | varray | field
-	T     string `json:"t"`    // type name in m16's table (S, map[string]int8, []int, IntSl, *[3]int, [3]int …; field: the struct, Holder)
+	Kind  string `json:"kind"`            // pstruct | vstruct | map | slice | parray | varray | field
+	T     string `json:"t"`               // type name in m16's table (S, map[string]int8, []int, IntSl, *[3]int, [3]int …; field: the struct, Holder)
 	Field string `json:"field,omitempty"` // field: the container is this field of a *T, reached as G.<Field> on every step
 	Init  m16.GV `json:"init"`
 }
